@@ -124,6 +124,24 @@ def _blocks(rows):
     return out
 
 
+def same_table(a, b):
+    """Equality of two exported tables up to the order of the per-hole blocks."""
+    if a["out"] != b["out"] or _seq(a["names"]) != _seq(b["names"]):
+        return False
+    return _blocks([_seq(r) for r in _seq(a["rows"])]) == _blocks([_seq(r) for r in _seq(b["rows"])])
+
+
+def table_deviation(t):
+    """Name of the as-built deviation a table entry of an exported state exhibits (or None)."""
+    if t["loose"]:
+        return "StalePgIdCache"
+    if same_table(t["pred"], t["ideal"]):
+        return None
+    if t["ideal"]["out"] == "ok" and not _seq(t["ideal"]["rows"]) and t["pred"]["out"] == "raises":
+        return "EmptyTableRaises"
+    return "TableByLabel"
+
+
 # ---------------------------------------------------------------------- comparison of one state
 def compare_state(scene, st, after_reopen=False, findings=None):
     """Raise Mismatch when the implementation differs from the exported state `st`."""
@@ -189,9 +207,9 @@ def compare_state(scene, st, after_reopen=False, findings=None):
                 continue
         if not ok:
             raise Mismatch("table-view", f"table {pg}: got {got_t} expected {pred}")
-        if pred != ideal:
-            empty = ideal["out"] == "ok" and not _seq(ideal["rows"]) and pred["out"] == "raises"
-            findings.append(("asbuilt:EmptyTableRaises" if empty else "asbuilt:TableByLabel",
+        dev = table_deviation(t)
+        if dev:
+            findings.append((f"asbuilt:{dev}",
                              f"table {pg}: implementation gives {pred['out']} {_seq(pred['rows'])}, the property requires {ideal['out']} {_seq(ideal['rows'])}"))
 
 
